@@ -156,3 +156,412 @@ Proof.
   destruct (ty =? T_WEBTRANSPORT_STREAM); [exact I|]. destruct (ty =? T_DATA); [exact E|].
   destruct (len r <? l); [exact I|]. rewrite skipn_length. lia.
 Qed.
+
+Lemma data_poll_eq b f rem : b <> [] ->
+  ref_poll {| rs_buf := b; rs_fin := f; rs_phase := PData rem |} =
+  ([RData (firstn (N.to_nat (N.min rem (len b))) b)],
+   {| rs_buf := skipn (N.to_nat (N.min rem (len b))) b; rs_fin := f;
+      rs_phase := if rem - N.min rem (len b) =? 0 then PBody else PData (rem - N.min rem (len b)) |}).
+Proof. destruct b; [contradiction|reflexivity]. Qed.
+
+(* ---------- a call now, or the same call after the rest has arrived: same outcome up to piece boundaries ---------- *)
+Definition commutes (s : rstate) (x : bytes) : Prop :=
+  exists k1 k2 o1 o2 t,
+    polls k1 (ext x s) = (o1, t) /\ polls k2 (ext x (snd (ref_poll s))) = (o2, t) /\
+    forall a l, merge_items a (o1 ++ l) = merge_items a (fst (ref_poll s) ++ o2 ++ l).
+
+Lemma commute_stay s x : ref_poll s = ([], s) -> commutes s x.
+Proof.
+  intros H. exists O, O, [], [], (ext x s). rewrite H. cbn [snd fst polls app]. repeat split; reflexivity.
+Qed.
+
+Lemma commute_same s x :
+  ref_poll (ext x s) = (fst (ref_poll s), ext x (snd (ref_poll s))) -> commutes s x.
+Proof.
+  intros H. exists 1%nat, O, (fst (ref_poll s)), [], (ext x (snd (ref_poll s))).
+  cbn [polls]. rewrite H. rewrite app_nil_r. repeat split; reflexivity.
+Qed.
+
+Lemma poll_commute s x : (rs_fin s = true -> x = []) -> commutes s x.
+Proof.
+  intros Hfin. destruct (rs_fin s) eqn:Ef.
+  - (* FIN already there: nothing more can arrive *)
+    rewrite (Hfin eq_refl). apply commute_same. rewrite (ext_nil s Ef).
+    rewrite ext_nil by (rewrite poll_keeps_fin; exact Ef). destruct (ref_poll s); reflexivity.
+  - clear Hfin. destruct s as [b f ph]. cbn [rs_fin] in Ef. subst f.
+    destruct ph as [| |rem|[tb|]| |].
+    + (* PFirst *)
+      pose proof (next_frame_ext b x) as Hx.
+      destruct (next_frame b) as [|l r|c r|] eqn:En.
+      * apply commute_stay. unfold ref_poll. cbn [rs_phase rs_buf]. rewrite En. reflexivity.
+      * apply commute_same. unfold ref_poll. cbn [rs_phase rs_buf ext]. rewrite En, Hx. reflexivity.
+      * apply commute_same. unfold ref_poll. cbn [rs_phase rs_buf ext]. rewrite En, Hx.
+        destruct c as [[]| |]; reflexivity.
+      * apply commute_same. unfold ref_poll. cbn [rs_phase rs_buf ext]. rewrite En, Hx. reflexivity.
+    + (* PBody *)
+      destruct b as [|b0 b'].
+      * apply commute_stay. reflexivity.
+      * pose proof (next_frame_ext (b0 :: b') x) as Hx.
+        destruct (next_frame (b0 :: b')) as [|l r|c r|] eqn:En.
+        -- apply commute_stay. unfold ref_poll. cbn [rs_phase rs_buf]. rewrite En. reflexivity.
+        -- apply commute_same. unfold ref_poll. cbn [rs_phase rs_buf ext app]. change (b0 :: b' ++ x) with ((b0 :: b') ++ x).
+           rewrite En, Hx. reflexivity.
+        -- apply commute_same. unfold ref_poll. cbn [rs_phase rs_buf ext app]. change (b0 :: b' ++ x) with ((b0 :: b') ++ x).
+           rewrite En, Hx. destruct c as [[]| |]; reflexivity.
+        -- apply commute_same. unfold ref_poll. cbn [rs_phase rs_buf ext app]. change (b0 :: b' ++ x) with ((b0 :: b') ++ x).
+           rewrite En, Hx. reflexivity.
+    + (* PData *)
+      destruct b as [|b0 b'].
+      * apply commute_stay. reflexivity.
+      * assert (Hb : b0 :: b' <> []) by discriminate. assert (Hbx : (b0 :: b') ++ x <> []) by discriminate.
+        revert Hb Hbx. generalize (b0 :: b'). intros b Hb Hbx.
+        destruct (N.le_gt_cases rem (len b)) as [Hle|Hgt].
+        -- (* the rest of the payload is already there *)
+           apply commute_same. unfold ext. cbn [rs_phase rs_buf]. rewrite !data_poll_eq by assumption. cbn [fst snd rs_buf rs_phase].
+           assert (E1 : N.min rem (len b) = rem) by lia. assert (E2 : N.min rem (len (b ++ x)) = rem) by (rewrite len_app; lia).
+           rewrite E1, E2. assert (Hn : (N.to_nat rem <= length b)%nat) by (unfold len in Hle; lia).
+           rewrite firstn_app_le, skipn_app_le by exact Hn. reflexivity.
+        -- (* only part of it: the piece handed out now and the next one are one piece later *)
+           assert (E1 : N.min rem (len b) = len b) by lia.
+           destruct x as [|x0 x'].
+           ++ apply commute_same. unfold ext. cbn [rs_phase rs_buf]. rewrite !data_poll_eq by assumption.
+              cbn [fst snd rs_buf rs_phase]. rewrite !app_nil_r. reflexivity.
+           ++ assert (Hx : x0 :: x' <> []) by discriminate. revert Hx Hbx. generalize (x0 :: x'). intros x Hx Hbx.
+              set (m := N.min (rem - len b) (len x)).
+              assert (Hm : N.min rem (len (b ++ x)) = len b + m) by (rewrite len_app; unfold m; lia).
+              set (ph' := if rem - (len b + m) =? 0 then PBody else PData (rem - (len b + m))).
+              exists 1%nat, 1%nat, [RData (b ++ firstn (N.to_nat m) x)], [RData (firstn (N.to_nat m) x)],
+                     {| rs_buf := skipn (N.to_nat m) x; rs_fin := true; rs_phase := ph' |}.
+              assert (Hl : N.to_nat (len b + m) = (length b + N.to_nat m)%nat) by (unfold len; lia).
+              assert (Hlb : N.to_nat (len b) = length b) by (unfold len; lia).
+              assert (Ez : rem - len b =? 0 = false) by (apply N.eqb_neq; lia).
+              split; [|split].
+              ** cbn [polls]. unfold ext. cbn [rs_phase rs_buf]. rewrite data_poll_eq by assumption. rewrite Hm, Hl.
+                 rewrite firstn_app, skipn_app.
+                 replace (length b + N.to_nat m - length b)%nat with (N.to_nat m) by lia.
+                 rewrite firstn_all2 by lia. rewrite skipn_all2 by lia. cbn [app]. reflexivity.
+              ** cbn [polls]. rewrite data_poll_eq by assumption. cbn [snd]. rewrite E1, Hlb, skipn_all, Ez.
+                 unfold ext. cbn [rs_phase rs_buf app]. rewrite data_poll_eq by assumption. fold m.
+                 replace (rem - len b - m) with (rem - (len b + m)) by lia. reflexivity.
+              ** intros a l. rewrite data_poll_eq by assumption. cbn [fst]. rewrite E1, Hlb, firstn_all.
+                 cbn [app merge_items]. rewrite !app_assoc. reflexivity.
+    + (* PTrailers (Some tb) *)
+      destruct b as [|b0 b'].
+      * apply commute_stay. reflexivity.
+      * pose proof (next_frame_ext (b0 :: b') x) as Hx.
+        destruct (next_frame (b0 :: b')) as [|l r|c r|] eqn:En.
+        -- apply commute_stay. unfold ref_poll. cbn [rs_phase rs_buf]. rewrite En. reflexivity.
+        -- apply commute_same. unfold ref_poll. cbn [rs_phase rs_buf ext app]. change (b0 :: b' ++ x) with ((b0 :: b') ++ x).
+           rewrite En, Hx. reflexivity.
+        -- apply commute_same. unfold ref_poll. cbn [rs_phase rs_buf ext app]. change (b0 :: b' ++ x) with ((b0 :: b') ++ x).
+           rewrite En, Hx. destruct c as [[]| |]; reflexivity.
+        -- apply commute_same. unfold ref_poll. cbn [rs_phase rs_buf ext app]. change (b0 :: b' ++ x) with ((b0 :: b') ++ x).
+           rewrite En, Hx. reflexivity.
+    + (* PTrailers None *) apply commute_same. reflexivity.
+    + apply commute_stay. reflexivity.
+    + apply commute_stay. reflexivity.
+Qed.
+
+(* ---------- any interleaved run can be replayed as a batch run ---------- *)
+Notation run := (rx_run rstate ref_arrive ref_fin ref_poll).
+
+Lemma only_polls_after_fin h : hist_ok_from true h = true -> hist_flat h = [].
+Proof.
+  induction h as [|e h IH]; [reflexivity|]. destruct e; cbn [hist_ok_from negb andb hist_flat]; try discriminate. exact IH.
+Qed.
+
+Theorem run_is_batch h : forall s items s',
+  hist_ok_from (rs_fin s) h = true -> run h s = (items, s') -> ref_done s' = true ->
+  exists n ib sb, polls n (ext (hist_flat h) s) = (ib, sb) /\ ref_done sb = true /\
+                  forall a, merge_items a items = merge_items a ib.
+Proof.
+  induction h as [|e h IH]; intros s items s' Hok Hrun Hd.
+  - cbn in Hrun. inversion Hrun; subst. exists O, [], (ext [] s'). cbn [polls hist_flat]. repeat split.
+    unfold ref_done, ext in *. cbn [rs_phase]. exact Hd.
+  - destruct e as [c| |]; cbn [hist_ok_from rx_run hist_flat] in *.
+    + apply andb_true_iff in Hok. destruct Hok as [Hok1 Hok]. apply andb_true_iff in Hok1. destruct Hok1 as [Hf _].
+      apply negb_true_iff in Hf.
+      destruct (IH (ref_arrive c s) items s') as (n & ib & sb & Hp & Hdb & Hm); try assumption.
+      { cbn [ref_arrive rs_fin]. rewrite Hf. exact Hok. }
+      exists n, ib, sb. rewrite <- ext_arrive. repeat split; assumption.
+    + apply andb_true_iff in Hok. destruct Hok as [_ Hok].
+      destruct (IH (ref_fin s) items s') as (n & ib & sb & Hp & Hdb & Hm); try assumption.
+      exists n, ib, sb. rewrite <- (ext_fin (hist_flat h) s). repeat split; assumption.
+    + destruct (ref_poll s) as [o s1] eqn:Ep. destruct (run h s1) as [items2 s2] eqn:Er. inversion Hrun; subst items s2.
+      assert (Hfin1 : rs_fin s1 = rs_fin s) by (pose proof (poll_keeps_fin s) as K; rewrite Ep in K; exact K).
+      destruct (IH s1 items2 s') as (n & ib & sb & Hp & Hdb & Hm); try assumption.
+      { rewrite Hfin1. exact Hok. }
+      assert (Hx : rs_fin s = true -> hist_flat h = []).
+      { intros Hf. rewrite Hf in Hok. apply only_polls_after_fin. exact Hok. }
+      destruct (poll_commute s (hist_flat h) Hx) as (k1 & k2 & o1 & o2 & t & H1 & H2 & H3).
+      rewrite Ep in H2, H3. cbn [fst snd] in H2, H3.
+      (* the batch run from s1 goes through t *)
+      destruct (polls n t) as [ib' sb'] eqn:Et.
+      assert (A : polls (k2 + n) (ext (hist_flat h) s1) = (o2 ++ ib', sb')) by (rewrite polls_app, H2, Et; reflexivity).
+      assert (B : polls (n + k2) (ext (hist_flat h) s1) = (ib, sb)).
+      { rewrite polls_app, Hp, (polls_done k2 sb Hdb), app_nil_r. reflexivity. }
+      rewrite Nat.add_comm in A. rewrite A in B. inversion B; subst ib sb'.
+      exists (k1 + n)%nat, (o1 ++ ib'), sb. split; [rewrite polls_app, H1, Et; reflexivity|]. split; [exact Hdb|].
+      intros a. rewrite H3. apply merge_congr. exact Hm.
+Qed.
+
+(* ---------- the batch run computes the RFC reading ---------- *)
+Definition st (v : bytes) (ph : rphase) : rstate := {| rs_buf := v; rs_fin := true; rs_phase := ph |}.
+Definition rd (ph : rd_phase) (acc : bytes) (f : nat) (v : bytes) : list ritem :=
+  read_tokens ph acc (fst (outcome_from f sc v Finished)) (snd (outcome_from f sc v Finished)).
+
+Lemma no_fail_flush q : no_fail (flush_items q).
+Proof. destruct q; repeat constructor. Qed.
+
+Lemma no_fail_merge l : forall a, no_fail (merge_items a l) <-> no_fail l.
+Proof.
+  unfold no_fail. induction l as [|e l IH]; intros a.
+  - cbn. split; intros _; [constructor|apply no_fail_flush].
+  - destruct e; cbn [merge_items];
+      try (rewrite Forall_app, !Forall_cons_iff, IH; split;
+           [intros (_ & H1 & H2); split; assumption | intros (H1 & H2); split; [apply no_fail_flush|split; assumption]]).
+    rewrite IH, Forall_cons_iff. tauto.
+Qed.
+
+Lemma read_bytes q : forall acc rest tl,
+  read_tokens RdBody acc (map TByte q ++ rest) tl = read_tokens RdBody (acc ++ q) rest tl.
+Proof.
+  induction q as [|x q IH]; intros acc rest tl; [cbn; rewrite app_nil_r; reflexivity|].
+  cbn [map app read_tokens]. rewrite IH, <- app_assoc. reflexivity.
+Qed.
+
+(* pending payload bytes and the next piece are one piece *)
+Lemma read_acc_shift toks tl : forall p q a,
+  merge_items a (RData p :: read_tokens RdBody q toks tl) = merge_items a (read_tokens RdBody (p ++ q) toks tl).
+Proof.
+  induction toks as [|t toks IH]; intros p q a.
+  - cbn [read_tokens]. destruct tl; cbn [merge_items]; rewrite !merge_flush, app_assoc; reflexivity.
+  - destruct t as [fr|x]; [destruct fr|]; cbn [read_tokens];
+      try (cbn [merge_items]; rewrite !merge_flush, app_assoc; reflexivity).
+    + apply IH.
+    + rewrite IH, app_assoc. reflexivity.
+Qed.
+
+Lemma outcome_step f v : v <> [] ->
+  match next_frame v with
+  | NFMore => outcome_from (S f) sc v Finished = ([], FrameError)
+  | NFBad => exists sid, outcome_from (S f) sc v Finished = ([TFrame (FWebTransport sid)], Handover)
+  | NFData l r =>
+      outcome_from (S f) sc v Finished =
+      if len r <? l then (TFrame (FData l) :: map TByte r, FrameError)
+      else (TFrame (FData l) :: map TByte (firstn (N.to_nat l) r) ++ fst (outcome_from f sc (skipn (N.to_nat l) r) Finished),
+            snd (outcome_from f sc (skipn (N.to_nat l) r) Finished))
+  | NFFrame c rest =>
+      (forall l, c <> CKnown (FData l)) /\
+      outcome_from (S f) sc v Finished =
+      match c with
+      | CKnown fr => (TFrame fr :: fst (outcome_from f sc rest Finished), snd (outcome_from f sc rest Finished))
+      | CBad e => ([], ProtoError e)
+      | CSkip => outcome_from f sc rest Finished
+      end
+  end.
+Proof.
+  intros Hv. unfold next_frame, tlv_header. cbn [outcome_from]. destruct v as [|b0 v']; [contradiction|].
+  destruct (rfc_take_varint (b0 :: v')) as [[ty r1]|] eqn:E1; [|reflexivity].
+  destruct (ty =? T_WEBTRANSPORT_STREAM) eqn:Ew.
+  - destruct (rfc_take_varint r1) as [[sid r2]|]; [|reflexivity]. rewrite Ew. exists sid. reflexivity.
+  - destruct (rfc_take_varint r1) as [[l r2]|] eqn:E2; [|reflexivity]. rewrite Ew.
+    destruct (ty =? T_DATA) eqn:Ed.
+    + destruct (len r2 <? l); [reflexivity|]. destruct (outcome_from f sc (skipn (N.to_nat l) r2) Finished). reflexivity.
+    + destruct (len r2 <? l); [reflexivity|]. split.
+      * intros l0. unfold classify.
+        repeat match goal with
+        | |- context [if ?c then _ else _] => destruct c
+        | |- context [match ?o with Some _ => _ | None => _ end] => destruct o as [[]|]
+        | |- context [match ?o with Some _ => _ | None => _ end] => destruct o
+        end; discriminate.
+      * destruct (classify sc ty (firstn (N.to_nat l) r2)); try reflexivity.
+        destruct (outcome_from f sc (skipn (N.to_nat l) r2) Finished). reflexivity.
+Qed.
+
+Lemma poll_first_step s o s1 n ib sb : ref_poll s = (o, s1) -> polls n s1 = (ib, sb) -> polls (S n) s = (o ++ ib, sb).
+Proof. intros H1 H2. cbn [polls]. rewrite H1, H2. reflexivity. Qed.
+
+Lemma nf_fail_contra l : no_fail l -> (exists w pre post, l = pre ++ RFail w :: post) -> False.
+Proof.
+  intros H (w & pre & post & E). subst l. unfold no_fail in H. rewrite Forall_app in H. destruct H as [_ H].
+  inversion H as [|? ? Hw _]. exact Hw.
+Qed.
+
+Ltac contra_fail H :=
+  exfalso; apply (nf_fail_contra _ H);
+  first [ (eexists; exists []; eexists; reflexivity)
+        | (eexists; eexists; eexists; reflexivity) ].
+
+(* after the trailers only frames of unknown type, then the end *)
+Lemma batch_trailers f : forall v tb, (length v < f)%nat -> no_fail (rd (RdTrailers tb) [] f v) ->
+  rd (RdTrailers tb) [] f v = [RTrailers (Some tb)] /\
+  exists n, polls n (st v (PTrailers (Some tb))) = ([RTrailers (Some tb)], st [] PDone).
+Proof.
+  induction f as [|f IH]; intros v tb Hl Hnf; [lia|].
+  destruct v as [|b0 v'].
+  - split; [reflexivity|]. exists 1%nat. reflexivity.
+  - set (v := b0 :: v') in *. assert (Hv : v <> []) by discriminate.
+    pose proof (outcome_step f v Hv) as Hs. pose proof (next_frame_shorter v) as Hsh. unfold rd in *.
+    destruct (next_frame v) as [|l r|c rest|] eqn:En.
+    + rewrite Hs in Hnf. cbn [fst snd read_tokens] in Hnf. contra_fail Hnf.
+    + rewrite Hs in Hnf. destruct (len r <? l); cbn [fst snd read_tokens] in Hnf; contra_fail Hnf.
+    + destruct Hs as [_ Hs]. rewrite Hs in *. destruct c as [fr|e|].
+      * cbn [fst snd read_tokens] in Hnf. contra_fail Hnf.
+      * cbn [fst snd read_tokens] in Hnf. contra_fail Hnf.
+      * destruct (IH rest tb ltac:(lia) Hnf) as [Hr (n & Hp)]. split; [exact Hr|]. exists (S n).
+        apply (poll_first_step _ [] (st rest (PTrailers (Some tb)))); [|exact Hp].
+        unfold ref_poll, st. cbn [rs_phase rs_buf]. unfold v at 1. fold v. rewrite En. reflexivity.
+    + destruct Hs as (sid & Hs). rewrite Hs in Hnf. cbn [fst snd read_tokens] in Hnf. contra_fail Hnf.
+Qed.
+
+Lemma batch_body f : forall v, (length v < f)%nat -> no_fail (rd RdBody [] f v) ->
+  exists n ib sb, polls n (st v PBody) = (ib, sb) /\ ref_done sb = true /\
+                  forall a, merge_items a ib = merge_items a (rd RdBody [] f v).
+Proof.
+  induction f as [|f IH]; intros v Hl Hnf; [lia|].
+  destruct v as [|b0 v'].
+  - exists 2%nat, [RDataEnd; RTrailers None], (st [] PDone). repeat split.
+  - set (v := b0 :: v') in *. assert (Hv : v <> []) by discriminate.
+    pose proof (outcome_step f v Hv) as Hs. pose proof (next_frame_shorter v) as Hsh. unfold rd in *.
+    assert (Hpoll : forall o s1, (match next_frame v with
+                                  | NFMore => starve (st v PBody)
+                                  | NFData l rest => ([], set_buf rest (if l =? 0 then PBody else PData l) (st v PBody))
+                                  | NFFrame (CKnown (FHeaders blk)) rest => ([RDataEnd], set_buf rest (PTrailers (Some blk)) (st v PBody))
+                                  | NFFrame CSkip rest => ([], set_buf rest PBody (st v PBody))
+                                  | _ => fail (st v PBody)
+                                  end) = (o, s1) -> ref_poll (st v PBody) = (o, s1)).
+    { intros o s1 H. unfold ref_poll, st. cbn [rs_phase rs_buf]. unfold v at 1. fold v. exact H. }
+    destruct (next_frame v) as [|l r|c rest|] eqn:En.
+    + rewrite Hs in Hnf. cbn [fst snd read_tokens flush_items app] in Hnf. contra_fail Hnf.
+    + rewrite Hs in *. destruct (N.ltb_spec (len r) l) as [Hlt|Hge].
+      * cbn [fst snd read_tokens] in Hnf. rewrite <- (app_nil_r (map TByte r)) in Hnf. rewrite read_bytes in Hnf.
+        cbn [read_tokens] in Hnf. contra_fail Hnf.
+      * cbn [fst snd read_tokens] in *. rewrite read_bytes in *. cbn [app] in *.
+        set (p := firstn (N.to_nat l) r) in *. set (rest := skipn (N.to_nat l) r) in *.
+        assert (Hnf' : no_fail (read_tokens RdBody [] (fst (outcome_from f sc rest Finished)) (snd (outcome_from f sc rest Finished)))).
+        { apply (no_fail_merge _ []) in Hnf. rewrite <- (app_nil_r p) in Hnf. rewrite <- read_acc_shift in Hnf.
+          apply no_fail_merge in Hnf. unfold no_fail in Hnf. rewrite Forall_cons_iff in Hnf. apply Hnf. }
+        assert (Hrl : (length rest < f)%nat) by (unfold rest; rewrite skipn_length; lia).
+        destruct (IH rest Hrl Hnf') as (n & ib & sb & Hp & Hd & Hm).
+        destruct (N.eqb_spec l 0) as [Hz|Hnz].
+        -- (* DATA with an empty payload *)
+           subst l. exists (S n), ib, sb. split; [|split; [exact Hd|]].
+           ++ apply (poll_first_step _ [] (st rest PBody)); [|exact Hp]. apply Hpoll. reflexivity.
+           ++ intros a. rewrite Hm. unfold p. reflexivity.
+        -- exists (S (S n)), (RData p :: ib), sb. split; [|split; [exact Hd|]].
+           ++ apply (poll_first_step _ [] (st r (PData l))); [apply Hpoll; destruct (N.eqb_spec l 0); [contradiction|reflexivity]|].
+              apply (poll_first_step _ [RData p] (st rest PBody)); [|exact Hp].
+              assert (Hr : r <> []) by (intros E; subst r; unfold len in Hge; cbn in Hge; lia).
+              unfold st. rewrite data_poll_eq by exact Hr. assert (Emin : N.min l (len r) = l) by lia. rewrite Emin.
+              replace (l - l =? 0) with true by (symmetry; apply N.eqb_eq; lia). reflexivity.
+           ++ intros a. cbn [merge_items]. rewrite Hm. rewrite <- (app_nil_r p) at 2. rewrite <- read_acc_shift. reflexivity.
+    + destruct Hs as [Hnd Hs]. rewrite Hs in *. destruct c as [fr|e|].
+      * destruct fr as [l0|blk| | | | | |]; cbn [fst snd read_tokens flush_items app] in Hnf;
+          try solve [contra_fail Hnf]; try solve [exfalso; apply (Hnd l0); reflexivity].
+        assert (Hnf' : no_fail (rd (RdTrailers blk) [] f rest)).
+        { unfold no_fail in Hnf. rewrite Forall_cons_iff in Hnf. apply Hnf. }
+        destruct (batch_trailers f rest blk ltac:(lia) Hnf') as [Hr (n & Hp)].
+        exists (S n), (RDataEnd :: [RTrailers (Some blk)]), (st [] PDone). split; [|split; [reflexivity|]].
+        -- apply (poll_first_step _ [RDataEnd] (st rest (PTrailers (Some blk)))); [apply Hpoll; reflexivity|exact Hp].
+        -- intros a. cbn [fst snd read_tokens flush_items app]. unfold rd in Hr. rewrite Hr. reflexivity.
+      * cbn [fst snd read_tokens flush_items app] in Hnf. contra_fail Hnf.
+      * destruct (IH rest ltac:(lia) Hnf) as (n & ib & sb & Hp & Hd & Hm).
+        exists (S n), ib, sb. split; [|split; [exact Hd|exact Hm]].
+        apply (poll_first_step _ [] (st rest PBody)); [apply Hpoll; reflexivity|exact Hp].
+    + destruct Hs as (sid & Hs). rewrite Hs in Hnf. cbn [fst snd read_tokens flush_items app] in Hnf. contra_fail Hnf.
+Qed.
+
+Lemma batch_first f : forall v, (length v < f)%nat -> no_fail (rd RdFirst [] f v) ->
+  exists n ib sb, polls n (st v PFirst) = (ib, sb) /\ ref_done sb = true /\
+                  forall a, merge_items a ib = merge_items a (rd RdFirst [] f v).
+Proof.
+  induction f as [|f IH]; intros v Hl Hnf; [lia|].
+  destruct v as [|b0 v'].
+  - unfold rd in Hnf. cbn [outcome_from fst snd read_tokens] in Hnf. contra_fail Hnf.
+  - set (v := b0 :: v') in *. assert (Hv : v <> []) by discriminate.
+    pose proof (outcome_step f v Hv) as Hs. pose proof (next_frame_shorter v) as Hsh. unfold rd in *.
+    assert (Hpoll : forall o s1, (match next_frame v with
+                                  | NFMore => starve (st v PFirst)
+                                  | NFFrame (CKnown (FHeaders blk)) rest => ([RFirst blk], set_buf rest PBody (st v PFirst))
+                                  | NFFrame CSkip rest => ([], set_buf rest PFirst (st v PFirst))
+                                  | _ => fail (st v PFirst)
+                                  end) = (o, s1) -> ref_poll (st v PFirst) = (o, s1)).
+    { intros o s1 H. exact H. }
+    destruct (next_frame v) as [|l r|c rest|] eqn:En.
+    + rewrite Hs in Hnf. cbn [fst snd read_tokens] in Hnf. contra_fail Hnf.
+    + rewrite Hs in Hnf. destruct (len r <? l); cbn [fst snd read_tokens] in Hnf; contra_fail Hnf.
+    + destruct Hs as [Hnd Hs]. rewrite Hs in *. destruct c as [fr|e|].
+      * destruct fr as [l0|blk| | | | | |]; cbn [fst snd read_tokens] in Hnf; try solve [contra_fail Hnf].
+        assert (Hnf' : no_fail (rd RdBody [] f rest)).
+        { unfold no_fail in Hnf. rewrite Forall_cons_iff in Hnf. apply Hnf. }
+        destruct (batch_body f rest ltac:(lia) Hnf') as (n & ib & sb & Hp & Hd & Hm).
+        exists (S n), (RFirst blk :: ib), sb. split; [|split; [exact Hd|]].
+        -- apply (poll_first_step _ [RFirst blk] (st rest PBody)); [apply Hpoll; reflexivity|exact Hp].
+        -- intros a. cbn [fst snd read_tokens merge_items]. f_equal. f_equal. apply Hm.
+      * cbn [fst snd read_tokens] in Hnf. contra_fail Hnf.
+      * destruct (IH rest ltac:(lia) Hnf) as (n & ib & sb & Hp & Hd & Hm).
+        exists (S n), ib, sb. split; [|split; [exact Hd|exact Hm]].
+        apply (poll_first_step _ [] (st rest PFirst)); [apply Hpoll; reflexivity|exact Hp].
+    + destruct Hs as (sid & Hs). rewrite Hs in Hnf. cbn [fst snd read_tokens] in Hnf. contra_fail Hnf.
+Qed.
+
+Lemma rfc_reading_rd v : rfc_stream_reading v = rd RdFirst [] (S (length v)) v.
+Proof. unfold rfc_stream_reading, rfc_stream_reading_with, rd, frame_outcome. destruct (outcome_from (S (length v)) sc v Finished). reflexivity. Qed.
+
+(* ---------- the law ---------- *)
+Theorem ref_reader_law h items s :
+  hist_ok h = true -> run h ref_init = (items, s) -> ref_done s = true ->
+  no_fail (rfc_stream_reading (hist_flat h)) ->
+  forall a, merge_items a items = merge_items a (rfc_stream_reading (hist_flat h)).
+Proof.
+  intros Hok Hrun Hd Hnf a.
+  destruct (run_is_batch h ref_init items s Hok Hrun Hd) as (n & ib & sb & Hp & Hdb & Hm).
+  rewrite rfc_reading_rd in *.
+  destruct (batch_first (S (length (hist_flat h))) (hist_flat h) ltac:(lia) Hnf) as (n0 & ib0 & sb0 & Hp0 & Hd0 & Hm0).
+  change (ext (hist_flat h) ref_init) with (st (hist_flat h) PFirst) in Hp.
+  destruct (polls_deterministic _ _ _ _ _ _ _ Hp Hdb Hp0 Hd0) as [E _]. subst ib0.
+  rewrite Hm. apply Hm0.
+Qed.
+
+(* once everything has arrived, finitely many further calls complete the message: nothing waits forever *)
+Lemma completes_gen h : forall s,
+  hist_ok_from (rs_fin s) h = true ->
+  (exists n ib sb, polls n (ext (hist_flat h) s) = (ib, sb) /\ ref_done sb = true) ->
+  exists m items' s', run (h ++ repeat HPoll m) s = (items', s') /\ ref_done s' = true.
+Proof.
+  induction h as [|e h IH]; intros s Hok (n & ib & sb & Hp & Hd).
+  - cbn [hist_ok_from] in Hok. cbn [app hist_flat] in *. rewrite (ext_nil s Hok) in Hp.
+    exists n, ib, sb. rewrite rx_run_polls. split; assumption.
+  - destruct e as [c| |]; cbn [hist_ok_from hist_flat app rx_run] in *.
+    + apply andb_true_iff in Hok. destruct Hok as [Hok1 Hok]. apply andb_true_iff in Hok1. destruct Hok1 as [Hf _].
+      apply negb_true_iff in Hf. apply (IH (ref_arrive c s)); [cbn [ref_arrive rs_fin]; rewrite Hf; exact Hok|].
+      exists n, ib, sb. rewrite ext_arrive. split; assumption.
+    + apply andb_true_iff in Hok. destruct Hok as [_ Hok]. apply (IH (ref_fin s)); [exact Hok|].
+      exists n, ib, sb. split; assumption.
+    + destruct (ref_poll s) as [o s1] eqn:Ep.
+      assert (Hfin1 : rs_fin s1 = rs_fin s) by (pose proof (poll_keeps_fin s) as K; rewrite Ep in K; exact K).
+      assert (Hx : rs_fin s = true -> hist_flat h = []).
+      { intros Hf. rewrite Hf in Hok. apply only_polls_after_fin. exact Hok. }
+      destruct (poll_commute s (hist_flat h) Hx) as (k1 & k2 & o1 & o2 & t & H1 & H2 & _).
+      rewrite Ep in H2. cbn [snd] in H2.
+      destruct (polls n t) as [ib' sb'] eqn:Et.
+      assert (Hdt : ref_done sb' = true).
+      { assert (A : polls (k1 + n) (ext (hist_flat h) s) = (o1 ++ ib', sb')) by (rewrite polls_app, H1, Et; reflexivity).
+        assert (B : polls (n + k1) (ext (hist_flat h) s) = (ib, sb)).
+        { rewrite polls_app, Hp, (polls_done k1 sb Hd), app_nil_r. reflexivity. }
+        rewrite Nat.add_comm in A. rewrite A in B. inversion B; subst. exact Hd. }
+      destruct (IH s1) as (m & it & s' & Hr & Hd').
+      { rewrite Hfin1. exact Hok. }
+      { exists (k2 + n)%nat, (o2 ++ ib'), sb'. split; [rewrite polls_app, H2, Et; reflexivity|exact Hdt]. }
+      exists m, (o ++ it), s'. rewrite Hr. split; [reflexivity|exact Hd'].
+Qed.
+
+Theorem ref_reader_completes h :
+  hist_ok h = true -> no_fail (rfc_stream_reading (hist_flat h)) ->
+  exists m items s, run (h ++ repeat HPoll m) ref_init = (items, s) /\ ref_done s = true.
+Proof.
+  intros Hok Hnf. rewrite rfc_reading_rd in Hnf.
+  destruct (batch_first (S (length (hist_flat h))) (hist_flat h) ltac:(lia) Hnf) as (n0 & ib0 & sb0 & Hp0 & Hd0 & _).
+  apply completes_gen; [exact Hok|]. exists n0, ib0, sb0. split; [exact Hp0|exact Hd0].
+Qed.
